@@ -7,6 +7,7 @@ import shutil
 import time
 
 import common
+import compile_probe
 import corpus
 import gen
 import proofs
@@ -262,9 +263,44 @@ def decide(prop, tier, seed, t0):
         e, f = check_c05_nested(res, cases)
         extra_evals += e
         extra_fails += f
-    if prop in ("C17", "C20"):
-        # the tie for these: the model agrees with the implementation on every invocation of the corpus
+    compile_info = None
+    compile_known = {}
+    if prop == "C03":
+        # Layer B: rustc must accept the expansion of every program of the compile-clean probe corpus
+        cp = compile_probe.run_probe(seed, tier)
+        ccases = {c["cid"]: c for c in cp["cases"]}
+        known_ids = set(f["id"] for f in known["findings"] if f["property"] == prop)
+        cfail_unknown = []
+        for cid, errs in cp["failing"].items():
+            c = ccases[int(cid)]
+            if c["known"] in known_ids:
+                compile_known.setdefault(c["known"], []).append((c, errs))
+            else:
+                cfail_unknown.append((c, errs))
+        compile_info = {"programs": len(ccases), "rejected_by_rustc": len(cp["failing"]), "rejected_in_known_classes": len(cp["failing"]) - len(cfail_unknown),
+                        "rounds": cp["rounds"], "unattributed_errors": cp["unattributed"], "clean_after_removal": cp["clean"],
+                        "by_family": {}}
+        for c in ccases.values():
+            compile_info["by_family"][c["family"]] = compile_info["by_family"].get(c["family"], 0) + 1
+        extra_evals += len(ccases)
+        for c, errs in sorted(cfail_unknown, key=lambda x: len(x[0]["item"]))[:1]:
+            path = write_replay(prop, "input", {"macro": c["macro"], "attr": c["attr"], "item": c["item"], "family": "compile_probe/" + c["family"]}, None,
+                                {"failing_predicate": "rustc rejects the expansion of a supported input (compile probe, harness/compile_probe.py)",
+                                 "rustc_diagnostics": errs[:5], "other_failing_programs": len(cfail_unknown) - 1,
+                                 "prelude": compile_probe.PRELUDE})
+            violations.append((path, ""))
+        if cp["unattributed"] and not cfail_unknown:
+            path = write_replay(prop, "input", None, None, {"failing_predicate": "rustc errors in the compile probe that could not be attributed to a case",
+                                                            "rustc_diagnostics": cp["unattributed"][:5]})
+            violations.append((path, ""))
+    if prop == "C17":
+        # the theorems are about the model's option parser: they transfer while the model expands every invocation of the
+        # metamorphic families exactly as the implementation does
         tie_broken = [r for r in applicable if not r.get("agree")]
+    if prop == "C20":
+        # determinism is decided on the implementation alone (histories); the theorems (membership-only name generation,
+        # no state across invocations) speak about this code while the parameter names it emits are the model's
+        tie_broken = [r for r in rows if r.get("C16") and r["C16"][0] == "1" and r["C16"][3] == "0"]
 
     # ---- classify failures against the known findings
     kf = [f for f in known["findings"] if f["property"] == prop]
@@ -277,6 +313,13 @@ def decide(prop, tier, seed, t0):
         else:
             unknown.append(r)
     for f in kf:
+        if f["id"] in compile_known:
+            wits = [(c, e) for c, e in compile_known[f["id"]] if c.get("witness_of") == f["id"]]
+            if wits:
+                c, e = wits[0]
+                known_lines.append("KNOWN-FINDING: property=%s %s [%s; witness `#[%s(%s)] %s`: %s; %d probe programs in its class]" % (
+                    prop, f["what"], f["id"], c["macro"], c["attr"], c["item"].replace("\n", " "), (e[0][1] or "")[:80], len(compile_known[f["id"]])))
+            continue
         # a finding is announced while one of its witnesses still fails on the implementation
         wit = [r for r in failing if cases[r["cid"]]["tags"].get("finding") == f["id"]]
         if wit:
@@ -346,7 +389,7 @@ def decide(prop, tier, seed, t0):
             "applicable_by_family": fam, "applicable_by_kind_outcome": kinds,
             "failing_on_impl": len(failing), "failing_in_known_classes": len(failing) - len(unknown),
             "tie_broken_cases": len(tie_broken), "cross_case_evaluations": extra_evals,
-            "corpus_stats": res["stats"], "corpus_key": res["key"],
+            "corpus_stats": res["stats"], "corpus_key": res["key"], "compile_probe": compile_info,
             "explanation": "proof = Coq theorems about the Gallina model; tie = every recorded invocation of the corpus is expanded by the extracted model and compared (token-exact) with the real macro's output, and the property's predicate is evaluated on the implementation's expansion",
         },
         "assumptions": ["rustc hands the macro syntactically valid items only", "syn 2.0.119 parse/print behaviour as re-implemented in coq/Syn.v",
@@ -367,10 +410,10 @@ def decide(prop, tier, seed, t0):
 def search_failing(prop, seed, tier, known):
     """widen the corpus (other seeds, thorough size) looking for a concrete input on which the property
     fails on the implementation; budgeted; returns a replay path or None"""
-    budget = 3 if tier == "thorough" else 2
-    for k in range(budget):
+    plan = ["quick", "quick", "thorough"] if tier == "thorough" else ["quick"]
+    for k, t2 in enumerate(plan):
         s2 = seed * 7919 + 1000 + k
-        res = corpus.load_or_run(s2, "thorough" if k == budget - 1 else "quick", keep_others=True)
+        res = corpus.load_or_run(s2, t2, keep_others=True)
         cases = {c["cid"]: c for c in res["cases"]}
         for r in all_rows(res):
             v = r.get(prop)
